@@ -23,7 +23,7 @@
 (***************************************************************************)
 EXTENDS Naturals, Integers, Sequences, FiniteSets, FiniteSetsExt, TLC, TLCExt, Wire, WireMsg
 
-CONSTANTS PROTO, MaxTask, MaxEnv, MaxFrames, H, Notifies, F_WATCHDOG, F_RECHECK, Record
+CONSTANTS PROTO, MaxTask, MaxEnv, MaxFrames, H, Notifies, F_WATCHDOG, F_RECHECK, Cmds, PostInit, Record
 
 U == 5000                       \* ms per model time unit
 INIT_T == 1                     \* init() waits 5 s
@@ -92,6 +92,8 @@ S0 == [state |-> 0,               \* 0 CLOSED, 1 CONNECTING, 2..7 INIT_k (reques
        initialised |-> FALSE, sopen |-> FALSE, sconn |-> FALSE, subscribed |-> FALSE, shutDone |-> FALSE,
        hbTasks |-> <<>>, hbSub |-> FALSE, pollTask |-> None, resp |-> FALSE, gresp |-> FALSE,
        inbox |-> <<>>, reader |-> None,
+       squeue |-> <<>>,          \* commands the socket holds for a down link: [id, msg, expiry]
+       everInit |-> FALSE,
        task |-> <<>>, ready |-> <<>>, running |-> None, batch |-> 0,
        now |-> 0, nenv |-> 0, nframes |-> 0, iters |-> 0, calls |-> 0]
 
@@ -172,16 +174,17 @@ Seg(s, t) ==
                  s1 == [s EXCEPT !.inbox = Tail(@), !.task[t].arg = f]
                  \* the heartbeat manager's own subscriber: any console-version message is a response
                  s2 == IF f = "version" /\ s.hbSub THEN [s1 EXCEPT !.resp = TRUE] ELSE s1
+                 dv == <<Ev(s, [e |-> "deliver", t |-> 0, rd |-> RxAlts(f)[1]])>>   \* the socket hands the frame to its subscribers
                  k  == s.state - 1     \* handshake request outstanding (1..6) when state in 2..7
                  answers == s.state \in 2..7 /\ (f = HSK[k] \/ (f = "zonestatus2" /\ k = 6) \/ (f = "acstatus2" /\ k = 4))
              IN IF answers
                 THEN IF k \in {1, 2, 3}
-                     THEN {R(Cont(SetPc([s2 EXCEPT !.state = @ + 1], t, "R0"), t), Send(s2, HSK[k + 1]))}
-                     ELSE { R(r, <<>>) : r \in NotifyAwait(s2, t, "Rh") }    \* await self._process_*_message(...)
+                     THEN {R(Cont(SetPc([s2 EXCEPT !.state = @ + 1], t, "R0"), t), dv \o Send(s2, HSK[k + 1]))}
+                     ELSE { R(r, dv) : r \in NotifyAwait(s2, t, "Rh") }    \* await self._process_*_message(...)
                 ELSE IF s.state = 8 /\ f \in {"acstatus", "acstatus2", "timer", "zonestatus", "zonestatus2", "version"}
                 THEN LET s3 == IF PROTO = "at4" /\ f \in {"zonestatus", "zonestatus2"} THEN [s2 EXCEPT !.gresp = TRUE] ELSE s2
-                     IN { R(r, <<>>) : r \in NotifyAwait(s3, t, "R0") }
-                ELSE {R(Cont(SetPc(s2, t, "R0"), t), <<>>)}
+                     IN { R(r, dv) : r \in NotifyAwait(s3, t, "R0") }
+                ELSE {R(Cont(SetPc(s2, t, "R0"), t), dv)}
   [] pc = "Rh" ->         \* after the awaited status update of handshake step 4, 5 or 6
         LET f == me.arg
             k == IF f \in {"acstatus", "acstatus2"} THEN 4 ELSE IF f = "timer" THEN 5 ELSE 6
@@ -197,10 +200,27 @@ Seg(s, t) ==
                           ELSE s1
                     s3 == IF PROTO = "at4" THEN LET c == Spawn(s2, "poll", "P0", 0) IN [c EXCEPT !.pollTask = NT(c)] ELSE s2
                     \* wait_for(initialised.wait()) of a pending init() wakes
-                    s4 == [s3 EXCEPT !.initialised = TRUE,
+                    s4 == [s3 EXCEPT !.initialised = TRUE, !.everInit = TRUE,
                                      !.task = [u \in 1..Len(s3.task) |-> IF s3.task[u].pc = "I1" THEN [s3.task[u] EXCEPT !.pc = "I2", !.wake = INF] ELSE s3.task[u]],
                                      !.ready = @ \o SetToSeqI({u \in 1..Len(s3.task) : s3.task[u].pc = "I1"})]
                 IN {R(Cont(SetPc(s4, t, "R0"), t), <<>>)}
+  \* ---------------------------------------------------------------- a public control call
+  \* (what is valid and what the frame says is the oracle's business: the expectation the monitor
+  \* computed at the call is taken over; the model adds WHEN things happen: refusal, not-open error,
+  \* immediate write, or holding for a down link with the 30 s lifetime of an idempotent command)
+  [] pc = "X0" ->
+        LET ix == {i \in 1..Len(mon.cmds) : mon.cmds[i].id = me.cid}
+            ex == mon.cmds[Min(ix)].exp
+            ret(res) == Ev(s, [e |-> "retapi", t |-> 0, id |-> me.cid, res |-> res, val |-> <<>>, method |-> me.arg.method])
+        IN IF ix = {} THEN {R(Done(s, t), <<ret("ok")>>)}
+           ELSE IF CC!Eq(ex.reject, TRUE) THEN {R(Done(s, t), <<ret("ValueError")>>)}
+           ELSE IF ~s.sopen THEN {R(Done(s, t), <<ret("NotOpenError")>>)}
+           ELSE IF CC!Eq(ex.reject, "ANY") \/ Len(ex.msgs) = 0 THEN {R(Done(s, t), <<ret("ok")>>)}
+           ELSE LET m  == ex.msgs[1]
+                    tx == Ev(s, [e |-> "txframe", t |-> 0, c |-> 0, ok |-> TRUE, alts |-> <<m>>, failed |-> FALSE, nw |-> 1,
+                                 to |-> 128, from |-> 176, pid |-> 0, type |-> 0])
+                IN IF s.sconn THEN {R(Done(s, t), <<tx, ret("ok")>>)}
+                   ELSE {R(Done([s EXCEPT !.squeue = Append(@, [id |-> me.cid, msg |-> m, expiry |-> s.now + 6])], t), <<ret("ok")>>)}
   \* ---------------------------------------------------------------- heartbeat loop: gather(sleep(interval), send)
   [] pc = "B0" ->
         {R(Stop([s EXCEPT !.task[t].pc = "Bsleep", !.task[t].wake = s.now + HB_I]), Send(s, "version"))}
@@ -269,9 +289,12 @@ RunTask ==
 Log(op) == script' = IF Record
                      THEN (IF S.iters > 0 THEN Append(script, [op |-> "step", k |-> S.iters]) ELSE script) \o <<op>>
                      ELSE script
+\* PostInit = TRUE spends the budget of environment steps after the first initialisation only: up to
+\* there the environment walks the one straight path (init, link up, the six answers in order)
+Warmup == PostInit /\ ~S.everInit
 EnvStep(s1, out, op) ==
   /\ Boundary(S) /\ S.nenv < MaxEnv
-  /\ S' = [s1 EXCEPT !.nenv = @ + 1, !.iters = 0]
+  /\ S' = [s1 EXCEPT !.nenv = IF Warmup THEN @ ELSE @ + 1, !.iters = 0]
   /\ mon' = Fold(mon, out)
   /\ Log(op)
 
@@ -299,7 +322,11 @@ ConnUp ==
   /\ S.sopen /\ ~S.sconn /\ NT(S) + 2 <= MaxTask
   /\ LET a == Spawn([S EXCEPT !.sconn = TRUE], "cc", "CC", TRUE)
          b == Spawn(a, "reader", "R0", 0)
-     IN EnvStep([b EXCEPT !.reader = NT(b)], <<Ev(S, [e |-> "connok", t |-> 0, c |-> 0])>>, [op |-> "conn_up"])
+         live == SelectSeq(S.squeue, LAMBDA q : S.now < q.expiry)
+         \* the socket drains what it held (unexpired) as soon as the link is up
+         txs == [i \in 1..Len(live) |-> Ev(S, [e |-> "txframe", t |-> 0, c |-> 0, ok |-> TRUE, alts |-> <<live[i].msg>>, failed |-> FALSE,
+                                                 nw |-> 1, to |-> 128, from |-> 176, pid |-> 0, type |-> 0])]
+     IN EnvStep([b EXCEPT !.reader = NT(b), !.squeue = <<>>], <<Ev(S, [e |-> "connok", t |-> 0, c |-> 0])>> \o txs, [op |-> "conn_up"])
 
 \* the link is lost (only judged after initialisation: C09 assumes an answering console)
 ConnDown ==
@@ -313,6 +340,21 @@ Deliver(kind) ==
              <<Ev(S, [e |-> "rxframe", t |-> 0, c |-> 0, alts |-> RxAlts(kind), soft |-> FALSE])>>,
              [op |-> "deliver", kind |-> kind,
               b |-> Frame(PROTO, 176, IF PL[kind][1] = 31 THEN 144 ELSE 128, 1, PL[kind][1], PL[kind][2])])
+
+\* public control calls on the objects a completed init() handed out: an accepted AC command, a
+\* refused damper value, the update check
+CmdTable == <<[target |-> "ac:0", method |-> "set_power", args |-> <<[enum |-> "AcPowerControl", name |-> "TURN_ON"]>>, tk |-> "ac", tn |-> 0],
+              [target |-> "zone:0", method |-> "set_damper_percentage", args |-> <<150>>, tk |-> "zone", tn |-> 0],
+              [target |-> "airtouch", method |-> "check_for_updates", args |-> <<>>, tk |-> "airtouch", tn |-> 0]>>
+CallCmd(k) ==
+  /\ Cmds /\ S.everInit /\ (S.state = 8 \/ (S.state = 0 /\ ~S.sopen /\ k = 3)) /\ NT(S) < MaxTask
+  /\ LET c  == CmdTable[k]
+         s1 == Spawn(S, "cmd", "X0", c)
+         id == S.calls + 1
+     IN EnvStep([s1 EXCEPT !.calls = id, !.task[NT(s1)].cid = id],
+                <<Ev(S, [e |-> "callapi", t |-> 0, id |-> id, target |-> c.target, method |-> c.method, args |-> c.args,
+                         kwargs |-> <<>>, tk |-> c.tk, tn |-> c.tn])>>,
+                [op |-> "call", target |-> c.target, method |-> c.method, args |-> c.args])
 
 Tick(dt) ==
   /\ Quiet(S)
@@ -334,10 +376,13 @@ Useful(kind) == \/ (S.state \in 2..7 /\ kind = HSK[S.state - 1])
                 \/ (S.state = 8 /\ kind \in {"acstatus2", "zonestatus2", "version", "acstatus", "zonestatus"})
                 \/ (S.state \in 2..7 /\ kind \in {"acstatus2", "zonestatus2"} /\ S.state < 5)    \* unsolicited, early
 
-Env == \/ CallInit \/ CallShutdown \/ ConnUp \/ ConnDown
-       \/ \E k \in Kinds : Useful(k) /\ Deliver(k)
-       \/ \E dt \in Dts : Tick(dt)
-       \/ TickToTimer \/ Checkpoint
+Env == IF Warmup
+       THEN CallInit \/ ConnUp \/ (S.state \in 2..7 /\ S.inbox = <<>> /\ Deliver(HSK[S.state - 1]))
+       ELSE \/ CallInit \/ CallShutdown \/ ConnUp \/ ConnDown
+            \/ \E k \in 1..3 : CallCmd(k)
+            \/ \E k \in Kinds : Useful(k) /\ Deliver(k)
+            \/ \E dt \in Dts : Tick(dt)
+            \/ TickToTimer \/ Checkpoint
 
 Next == StartIter \/ RunTask \/ Env
 Spec == Init /\ [][Next]_vars
